@@ -59,7 +59,7 @@ def check(ctx):
             if adj.startswith("&mut "):
                 root = k8._root_local_through_calls(recv)
                 if root in derived_muts:
-                    writes.append(("mutcall:" + cshort(n.get("callee", n["name"])), show(N.term(recv))[:200], n))
+                    writes.append(("mutcall:" + cshort(n.get("callee", n["name"])), show(N.term(recv), 10 ** 5), n))
         if k in ("Call", "MethodCall"):
             for a in n["args"]:
                 a2 = k8.strip_nonref(a)
@@ -79,10 +79,10 @@ def check(ctx):
                            "entries are reached only through types.get_mut(<member id of a renamed group>)", "get_mut on `%s` with index `%s`" % (where, idx[:160]))
             else:
                 ctx.expect(where.endswith(".ty.path.segments"), "C04.1", "frame/last_mut", site(n), "only the last segment of the entry's path is borrowed mutably",
-                           "last_mut on `%s`" % where)
+                           "last_mut on `%s`" % where[-200:])
         elif kind == "assign":
             lhs = show(unmut(N.term(n["l"])))
-            ok = lhs.startswith("Option::expect(slice::last_mut(") and ".ty.path.segments))" in lhs
+            ok = lhs.startswith("slice::last_mut(") and lhs.endswith(".ty.path.segments)@v1::Some.0")
             ctx.expect(ok, "C04.1", "frame/assign", site(n), "the only assignment is `*segments.last_mut() = new_name`", "assignment to `%s`" % lhs[:200])
         else:
             ctx.bad("C04.1", "frame/other/" + kind, site(n), "the registry is modified through `%s` on `%s`: outside the frame (only the last path segment may change)" % (kind, where))
